@@ -51,10 +51,13 @@ EndFor == /\ I.op = "endfor"
 IfThen == I.op = "if" /\ Goto(pc + 1)
 IfElse == I.op = "if" /\ Goto(I.else)
 Jump == I.op = "jump" /\ Goto(I.to)
-\* a read of an unbound name stops the path (the program would raise NameError there)
-Step == /\ Unbound = {} /\ (Assign \/ Plain \/ ForSkip \/ ForEnter \/ EndFor \/ IfThen \/ IfElse \/ Jump)
-        \* C12 on all paths: the protocol monitor, strict about feeding on the path that entered every loop
-        /\ mp' = IF Progs[pid].protocol THEN MpStep(mp, I, depth > 0, ~skipped) ELSE mp
+\* a read of an unbound name is reported (Verdict) and the path then continues as if the name had been supplied, so that one
+\* unbound name does not hide later ones on the same path
+Recover == /\ Unbound # {} /\ defined' = defined \cup Unbound /\ UNCHANGED <<pid, pc, dead, depth, skipped, mp>>
+Step == \/ Recover
+        \/ /\ Unbound = {} /\ (Assign \/ Plain \/ ForSkip \/ ForEnter \/ EndFor \/ IfThen \/ IfElse \/ Jump)
+           \* C12 on all paths: the protocol monitor, strict about feeding on the path that entered every loop
+           /\ mp' = IF Progs[pid].protocol THEN MpStep(mp, I, depth > 0, ~skipped) ELSE mp
 Spec == Init /\ [][Step]_vars
 ReadsBound == Unbound = {}
 LoopVarsScoped == Scoped = {}
